@@ -54,7 +54,8 @@ def template(draw):
         acts_done = draw(st.booleans()) if i + 1 == nfr else False
         body.append({"acts": acts, "tr": tr})
     nested = draw(st.sampled_from([None, {"tag": "inner", "frame": draw(st.integers(0, nfr - 1)),
-                                          "via": draw(st.sampled_from([None, "me.y", "y", "main"]))}]))
+                                          "via": draw(st.sampled_from([None, "me.y", "y", "main"])),
+                                          "twin": draw(st.sampled_from([None, "innertwo", "mine"]))}]))
     clones = []
     for j in range(draw(st.integers(1, 3))):
         clones.append({"frame": draw(st.sampled_from(["f1", "f1", "f2"])),
@@ -94,6 +95,9 @@ def moot_lines(name, body, nested, sched, use_m=False):
                 L.append("put 0 into m of me")
         if nested and nested["frame"] == i:
             L.append("aux inner0 as %s" % nested["tag"] + (" via %s" % nested["via"] if nested.get("via") else ""))
+            if nested.get("twin"):
+                # a second nested clone right next to the first one in the same frame
+                L.append("aux inner0 as %s" % nested["twin"] + (" via %s2" % nested["via"] if nested.get("via") else ""))
         cur = "native"
         for ctx, k, v in fr["acts"]:
             if ctx != cur:
